@@ -215,13 +215,16 @@ func (x *Exec) sortStable(st *State, fr *Frame, arg Val, pos token.Pos, stable b
 	// outside the slice window nothing changes
 	st.assume(fmt.Sprintf("(forall ((k Int)) (! (=> (or (< k %s) (>= k (+ %s %s))) (= (select %s k) (select %s k))) :pattern ((select %s k))))", off, off, n, row, oldRow, row))
 	// new[i] = old[perm(i)], perm maps [0,n) to [0,n) bijectively (inverse given)
-	st.assume(fmt.Sprintf("(forall ((i Int)) (! (=> (and (<= 0 i) (< i %s)) (and (<= 0 (%s i)) (< (%s i) %s) (= (%s (%s i)) i) (= (select %s (+ %s i)) (select %s (+ %s (%s i)))))) :pattern ((%s i)) :pattern ((select %s (+ %s i)))))",
-		n, perm, perm, n, inv, perm, row, off, oldRow, off, perm, perm, row, off))
+	st.assume(normalizeForall("forall", []string{"qs_i"}, fmt.Sprintf("(=> (and (<= 0 qs_i) (< qs_i %s)) (and (<= 0 (%s qs_i)) (< (%s qs_i) %s) (= (%s (%s qs_i)) qs_i) (= (select %s (+ %s qs_i)) (select %s (+ %s (%s qs_i))))))",
+		n, perm, perm, n, inv, perm, row, off, oldRow, off, perm)))
 	st.assume(fmt.Sprintf("(forall ((j Int)) (! (=> (and (<= 0 j) (< j %s)) (and (<= 0 (%s j)) (< (%s j) %s) (= (%s (%s j)) j))) :pattern ((%s j))))",
 		n, inv, inv, n, perm, inv, inv))
+	// every old element occurs in the new array (at inv(j))
+	st.assume(normalizeForall("forall", []string{"qs_j"}, fmt.Sprintf("(=> (and (<= 0 qs_j) (< qs_j %s)) (= (select %s (+ %s qs_j)) (select %s (+ %s (%s qs_j)))))",
+		n, oldRow, off, row, off, inv)))
 	// sorted by key
-	st.assume(fmt.Sprintf("(forall ((i Int) (j Int)) (! (=> (and (<= 0 i) (< i j) (< j %s)) (<= (%s (select %s (+ %s i))) (%s (select %s (+ %s j))))) :pattern ((select %s (+ %s i)) (select %s (+ %s j)))))",
-		n, acc, row, off, acc, row, off, row, off, row, off))
+	st.assume(normalizeForall("forall", []string{"qs_a", "qs_b"}, fmt.Sprintf("(=> (and (<= 0 qs_a) (< qs_a qs_b) (< qs_b %s)) (<= (%s (select %s (+ %s qs_a))) (%s (select %s (+ %s qs_b)))))",
+		n, acc, row, off, acc, row, off)))
 	if stable {
 		st.assume(fmt.Sprintf("(forall ((i Int) (j Int)) (! (=> (and (<= 0 i) (< i j) (< j %s) (= (%s (select %s (+ %s i))) (%s (select %s (+ %s j))))) (< (%s i) (%s j))) :pattern ((%s i) (%s j))))",
 			n, acc, row, off, acc, row, off, perm, perm, perm, perm))
